@@ -56,7 +56,7 @@ CLAIMED.update({
             "Assumed: per-sender FIFO of Go channels (for the fan-in sentence); the single-receiver prophecy sequence of the task channel.",
             "3/C08"),
     "C16": ("Proof that BaseProcess.Ready returns only if every in-, out-, parameter-in- and parameter-out-port is connected, that readyToRun is true only if every process of the run set answered Ready, that runProcs starts a process (go or driver) only after that; that upstreamProcsForProc returns a set keyed by process name that contains every direct upstream (file and parameter edges), is closed under upstream and contains only processes with a downstream witness inside the set (hence, for acyclic graphs, exactly the transitive upstream closure); that RunToProcs hands runProcs exactly the union of the targets and their closures; wiring operations keep ready <=> connected.",
-            "Assumed: process names identify processes (AddProc refuses duplicates); port maps of a process are not replaced after construction; interface dispatch of WorkflowProcess follows the interface contracts. The rewiring of cut connections to the sink (reconnectDeadEndConnections) is under a frame-only contract so far. Defects F3 and F9 were repaired (fix: commits).",
+            "Assumed: process names identify processes (AddProc refuses duplicates); port maps of a process are not replaced after construction; interface dispatch of WorkflowProcess follows the interface contracts. Termination of the recursive closure computation is not proved in general (it needs an acyclic wiring); its necessary condition 'never recurses with the process it was called for' is an obligation. Defects F3, F9 and F12 were repaired (fix: commits).",
             "3/C16"),
     "C17": ("Proof of the sequential FIFO mechanism: producer ({os:}) and consumer ({i:} of a streaming IP) placeholders expand to the same path.fifo string; in Process.Run an existing FIFO is refused (Fail) before CreateFifo, the FIFO is created and the IP sent before the producing task is started, streaming outputs are never forwarded a second time; NewTask propagates the stream flag; streaming outputs are exempt from existence checks and renames; CreateFifo creates no regular file.",
             "NOT decided here: that the consumer receives exactly the producer's bytes (kernel pipe semantics, two OS processes), which of the two concurrent tasks finishes first (audit link), termination of a re-run.",
